@@ -4,7 +4,7 @@
    arbitrary polynomial expression trees. "Depends on" = occurrence of the symbol after the
    construction-time folding `norm` (deps e = fsyms (norm e)). *)
 From Coq Require Import ZArith List Bool Arith Lia.
-From PV Require Import Model.C22_delay Proofs.C22_delay.
+From PV Require Import Model.C22_delay Proofs.C22_delay Model.C22_simplify Proofs.C22_simplify.
 Import ListNotations.
 
 (* Rejected exactly when some duration depends on time, a state, a derivative of a state, an algebraic
@@ -159,3 +159,95 @@ Proof.
       repeat (destruct Hs as [<- | Hs]); try contradiction; reflexivity.
 Qed.
 Print Assumptions C22_example.
+
+(* ================= simplification options: the delay arguments follow every substitution step ================= *)
+
+(* For ANY list of steps (in particular any subset of the seven steps of _simplify_once, steps_of o) the delay
+   arguments of the simplified model are the original ones with the steps' substitutions applied one after the
+   other - equivalently with their composition as one substitution; loop tags untouched. *)
+Theorem C22_delay_args_follow (fs : list step) (st : sst) :
+  let ss := fst (run fs st) in
+  st_args (snd (run fs st)) = map (rec_seq ss) (st_args st) /\
+  (forall r, rec_seq ss r = mkD (app_seq ss (dr_expr r)) (app_seq ss (dr_dur r)) (dr_loop r)) /\
+  (forall e, app_seq ss e = app_subst (compose_all ss) e).
+Proof.
+  cbv zeta. split; [apply run_args | split; [apply rec_seq_fields | apply app_seq_compose]].
+Qed.
+Print Assumptions C22_delay_args_follow.
+
+(* ... and they keep their values: in every valuation in which the bindings of the applied substitutions hold
+   (an eliminated variable equals its definition, a replaced constant / parameter its value) the k-th delayed
+   expression and duration of the simplified model evaluate like the k-th original ones. *)
+Theorem C22_delay_args_value (fs : list step) (st : sst) (en : envd) :
+  (forall s, In s (fst (run fs st)) -> forall v x, lookup v s = Some x -> eval en 0 x = var_at en v 1) ->
+  forall k r, nth_error (st_args st) k = Some r ->
+  exists r', nth_error (st_args (snd (run fs st))) k = Some r' /\
+             eval en 0 (dr_expr r') = eval en 0 (dr_expr r) /\
+             eval en 0 (dr_dur r') = eval en 0 (dr_dur r) /\ dr_loop r' = dr_loop r.
+Proof. exact (args_value fs st en). Qed.
+Print Assumptions C22_delay_args_value.
+
+(* accept / reject under options: rejected iff some ORIGINAL duration, after the composed substitution of the
+   enabled steps, depends on time / a state / a derivative / an algebraic variable / a non-fixed input of the
+   simplified model; accepted with a buildable function => every duration depends only on what is left of the
+   constants, parameters and fixed inputs. *)
+Theorem C22_simplify_decision (o : opts) (sm : smodel) :
+  let ss := fst (run (steps_of o (sm_elim sm)) (init sm)) in
+  (accept_s (final o sm) = false <->
+   exists r0 s, In r0 (st_args (init sm)) /\
+                In s (deps (app_subst (compose_all ss) (dr_dur r0))) /\ bad_s (final o sm) s) /\
+  (accept_s (final o sm) = true -> closed_s (final o sm) = true ->
+   forall r s, In r (st_args (final o sm)) -> In s (deps (dr_dur r)) -> good_s (final o sm) s).
+Proof.
+  cbv zeta. split; [exact (simplify_decision o sm) | exact (simplify_accept_closed (final o sm))].
+Qed.
+Print Assumptions C22_simplify_decision.
+
+(* The merged / simultaneous flush (seeded change m6) is NOT equivalent: `w = x; _a = 2*w; y = delay(x, _a)`
+   with eliminable_variable_expression + detect_aliases.  Sequentially the duration becomes 2*x (x a state):
+   rejected.  Merged, it stays 2*w with w already eliminated: accepted, and no function can be built. *)
+Definition m6_model : smodel :=
+  mkSM (mkModel [mkDecl 1 KPlain; mkDecl 2 KPlain; mkDecl 3 KPlain; mkDecl 4 KPlain]
+                [Eq (Ref (SDer 1)) (Neg (Ref (SVar 1)));
+                 Eq (Ref (SVar 2)) (Ref (SVar 1));
+                 Eq (Ref (SVar 3)) (Mul (Num 2) (Ref (SVar 2)));
+                 Eq (Ref (SVar 4)) (Delay (Ref (SVar 1)) (Ref (SVar 3)))] 100) [] [3].
+Definition m6_opts : opts := mkOpts false false false false false true true.
+
+Theorem C22_delay_args_follow_refuted :
+  let fs := steps_of m6_opts (sm_elim m6_model) in
+  st_args (snd (run fs (init m6_model))) = [mkD (Ref (SVar 1)) (Mul (Num 2) (Ref (SVar 1))) None] /\
+  accept_s (snd (run fs (init m6_model))) = false /\
+  st_args (snd (run_merged fs (init m6_model))) = [mkD (Ref (SVar 1)) (Mul (Num 2) (Ref (SVar 2))) None] /\
+  accept_s (snd (run_merged fs (init m6_model))) = true /\
+  closed_s (snd (run_merged fs (init m6_model))) = false.
+Proof. cbv zeta. repeat split; vm_compute; reflexivity. Qed.
+Print Assumptions C22_delay_args_follow_refuted.
+
+(* non-vacuity: constant c = 3, k = 2*c, parameter p = 5, q = c*p, fixed input uf, w = uf, _e = 2*w + p,
+   z = 4; y1 = delay(5*x, q + k), y2 = delay(_e, _e + z) with all seven steps enabled: accepted, closed, the
+   durations become 3*5 + 2*3 and (2*uf + 5) + 4, values as computed; without eliminate_constant_assignments
+   z stays algebraic and the model is rejected. *)
+Definition chain_example : smodel :=
+  mkSM (mkModel [mkDecl 1 KConst; mkDecl 2 KConst; mkDecl 3 KParam; mkDecl 4 KParam; mkDecl 5 (KInput true);
+                 mkDecl 6 KPlain; mkDecl 7 KPlain; mkDecl 8 KPlain; mkDecl 9 KPlain; mkDecl 10 KPlain; mkDecl 11 KPlain]
+                [Eq (Ref (SDer 6)) (Neg (Ref (SVar 6)));
+                 Eq (Ref (SVar 7)) (Ref (SVar 5));
+                 Eq (Ref (SVar 8)) (Add (Mul (Num 2) (Ref (SVar 7))) (Ref (SVar 3)));
+                 Eq (Ref (SVar 9)) (Num 4);
+                 Eq (Ref (SVar 10)) (Delay (Mul (Num 5) (Ref (SVar 6))) (Add (Ref (SVar 4)) (Ref (SVar 2))));
+                 Eq (Ref (SVar 11)) (Delay (Ref (SVar 8)) (Add (Ref (SVar 8)) (Ref (SVar 9))))] 100)
+       [(1, Num 3); (2, Mul (Num 2) (Ref (SVar 1))); (3, Num 5); (4, Mul (Ref (SVar 1)) (Ref (SVar 3)))] [8].
+
+Example C22_simplify_example :
+  let o := mkOpts true true true true true true true in
+  let st := final o chain_example in
+  let en := mkEnv 0 [(6, [2]%Z); (5, [7]%Z)] [] in
+  accept_s st = true /\ closed_s st = true /\
+  map dr_dur (st_args st) =
+    [Add (Mul (Num 3) (Num 5)) (Mul (Num 2) (Num 3));
+     Add (Add (Mul (Num 2) (Ref (SVar 5))) (Num 5)) (Num 4)] /\
+  outputs_s st en = [[10]; [21]; [19]; [23]]%Z /\
+  accept_s (final (mkOpts true true false true true true true) chain_example) = false.
+Proof. cbv zeta. repeat split; vm_compute; reflexivity. Qed.
+Print Assumptions C22_simplify_example.
